@@ -6,7 +6,6 @@ import (
 	"fmt"
 	"time"
 
-	"github.com/IrineSistiana/mosdns/v5/plugin/executable/cache"
 	"github.com/miekg/dns"
 )
 
@@ -112,7 +111,7 @@ func (w *world) inject(i int, ents []AEntry) error {
 		w.base = time.Now()
 	}
 	baseU := w.base.Unix()
-	var ces []*cache.CachedEntry
+	var ces []*CachedEntry
 	var evs []ev
 	for _, e := range ents {
 		q := e.Owner
@@ -129,7 +128,7 @@ func (w *world) inject(i int, ents []AEntry) error {
 		if err != nil {
 			return err
 		}
-		ces = append(ces, &cache.CachedEntry{Key: k, Msg: msg,
+		ces = append(ces, &CachedEntry{Key: k, Msg: msg,
 			CacheExpirationTime: baseU + int64(e.CacheExp-w.now),
 			MsgExpirationTime:   baseU + int64(e.MsgExp-w.now),
 			MsgStoredTime:       baseU + int64(e.Stored-w.now)})
@@ -208,6 +207,9 @@ func (w *world) doExec(i int, q AQ, r AR, knownIDs map[int]known) (COb, execResu
 		if o.HasOpt {
 			ao.Cont = "mut" // an OPT must never come out of the cache
 		}
+		if o.Sid < 0 && o.NRec > 0 {
+			ao.Cont = "mut" // every answer with records names its serial in record 0
+		}
 		w.handles = append(w.handles, handle{i, o.Sid, "hit", er.resp})
 	}
 	e := ev{"ev": "Exec", "i": i, "q": absQ(q), "r": absR(r), "sid": sid,
@@ -224,12 +226,19 @@ func (w *world) doDump(i int, withAge bool, set bool) ([]byte, error) {
 	du := nowUnix()
 	code, body := w.inst(i).api("GET", "/dump", nil)
 	w.checkClock()
-	if code != 200 {
-		return nil, fmt.Errorf("GET /dump: %d", code)
+	var ents []*CachedEntry
+	if code == 200 {
+		var err error
+		if ents, err = decodeDump(body); err != nil {
+			code = 599 // 200 but not a readable dump (e.g. aborted half way)
+			w.notes = append(w.notes, "dump undecodable: "+err.Error())
+		}
+	} else {
+		w.notes = append(w.notes, fmt.Sprintf("GET /dump: %d %s", code, string(body[:min(len(body), 160)])))
 	}
-	ents, err := decodeDump(body)
-	if err != nil {
-		return nil, fmt.Errorf("harness cannot decode a real dump: %w", err)
+	if code != 200 {
+		w.events = append(w.events, ev{"ev": "Dump", "i": i, "ents": []ev{}, "set": set, "status": code})
+		return nil, nil
 	}
 	xs := []ev{}
 	for _, e := range ents {
@@ -244,7 +253,7 @@ func (w *world) doDump(i int, withAge bool, set bool) ([]byte, error) {
 		}
 		xs = append(xs, ev{"id": id, "rem": clampInt(e.GetMsgExpirationTime() - du), "crem": clampInt(e.GetCacheExpirationTime() - du), "age": age})
 	}
-	w.events = append(w.events, ev{"ev": "Dump", "i": i, "ents": xs, "set": set})
+	w.events = append(w.events, ev{"ev": "Dump", "i": i, "ents": xs, "set": set, "status": 200})
 	if set {
 		w.lastDump = body
 	}
